@@ -11,6 +11,7 @@ import Optyx.Lemmas.JacHess
 import Optyx.Props.C02
 import Optyx.Drive.Jac
 import Optyx.Lemmas.HessSecond
+import Optyx.Props.Closures
 
 namespace Optyx.Props.C17
 open Optyx Optyx.Py Optyx.Py.Jac NumAlg
